@@ -117,7 +117,14 @@ func nz[T any](xs []T) []T {
 
 // rndPattern derives a mask pattern from a URL so that it matches reasonably often.
 func rndPattern(rnd *rand.Rand, url, host string) string {
-	switch rnd.Intn(12) {
+	switch rnd.Intn(15) {
+	case 12:
+		// a pipe that is no anchor is a literal character: none of the URLs has one
+		return host + "|" + []string{"zzz", "/", host}[rnd.Intn(3)]
+	case 13:
+		return "|||" + host
+	case 14:
+		return url[len(url)-4:] + "||"
 	case 0:
 		return "||" + host + "^"
 	case 1:
